@@ -1,7 +1,246 @@
-import GixModel.Model.C29
+import GixModel.Lemmas.C29
+/-
+C29 — Packet-line framing is exact and never panics.  PROPERTY THEOREMS ONLY.
+
+All theorems are generic in the wire constants `c` (side condition `ConstsOk c`, decidable) and are
+instantiated for the constants extracted from `/repo/gix-packetline/src/lib.rs` on this run by
+`extracted_consts_ok`. They quantify over ALL payloads, ALL streams, ALL ways a reader may split
+the bytes (`cs : List Bytes`, non-empty chunks), ALL sequences of `read_line`/`peek_line` calls
+and ALL `read` buffer sizes. The model is `GixModel.C29` (the code after the two `fix:` commits
+recorded in known-findings.txt).
+-/
 namespace GixModel.Props.C29
 open GixModel GixModel.C29
 
-theorem placeholder : (1 : Nat) = 1 := rfl
+/-- Per-run obligation: today's constants are the ones the proofs rely on
+(`MAX_DATA_LEN + 4` fits a u16, `MAX_LINE_LEN = MAX_DATA_LEN + 4`, the three control lines, `ERR `,
+the channel numbers). -/
+theorem extracted_consts_ok : ConstsOk consts := by decide
+
+/-! ### what is written decodes back, consuming exactly what was written -/
+
+/-- Every line any encoder writes (`prefix ++ data ++ suffix` covers data, text, ERR and band
+lines) decodes — followed by arbitrary further bytes — to exactly that payload, and the decoder
+consumes exactly the number of bytes written (which is also the count the encoder returns). -/
+theorem encode_decode (c : Consts) (hc : ConstsOk c) (pre data suf rest : Bytes) (m : Nat) (out : Bytes)
+    (h : encode c pre data suf = .ok (m, out)) :
+    streaming c (out ++ rest) = .ok (.complete (.data (pre ++ data ++ suf)) m) ∧ m = out.length :=
+  encode_decode_core c hc pre data suf rest m out h
+
+-- non-vacuity: a one-byte data line is accepted by today's encoder (a maximal one: see below)
+example : (match encData consts [97] with | .ok (n, bs) => n == 5 && bs == [48, 48, 48, 53, 97] | .error _ => false) = true := by
+  decide +kernel
+
+/-- The encoder accepts exactly the non-empty payloads of at most `MAX_DATA_LEN` bytes (counting
+prefix and suffix); everything else is an error, never a truncated length. -/
+theorem encode_accepts_iff (c : Consts) (pre data suf : Bytes) :
+    (∃ m out, encode c pre data suf = .ok (m, out)) ↔
+      (data ≠ [] ∧ pre.length + data.length + suf.length ≤ c.maxDataLen) := by
+  constructor
+  · rintro ⟨m, out, h⟩
+    obtain ⟨h1, h2, _, _⟩ := encode_ok_iff c pre data suf m out h
+    exact ⟨h2, h1⟩
+  · rintro ⟨h1, h2⟩
+    unfold encode
+    simp only
+    rw [if_neg (by omega), if_neg (by simpa using h1)]
+    exact ⟨_, _, rfl⟩
+
+-- the upper boundary with today's constants: any 65516 bytes are accepted, no 65517 bytes are
+example (d : Bytes) (h : d.length = 65516) : ∃ m out, encData consts d = .ok (m, out) :=
+  (encode_accepts_iff consts [] d []).mpr
+    ⟨by intro he; rw [he] at h; simp at h, by rw [h]; decide⟩
+example (d : Bytes) (h : d.length = 65517) : ¬ ∃ m out, encData consts d = .ok (m, out) := by
+  intro he
+  have := ((encode_accepts_iff consts [] d []).mp he).2
+  rw [h] at this
+  revert this; decide
+
+/-- flush / delimiter / response-end are written as four bytes and decode back to themselves -/
+theorem control_lines_roundtrip (c : Consts) (hc : ConstsOk c) (l : Line) (hl : l.asSlice = none)
+    (rest : Bytes) :
+    ∃ w, encLine c l = .ok (4, w) ∧ w.length = 4 ∧ streaming c (w ++ rest) = .ok (.complete l 4) := by
+  obtain ⟨pf, pd, pr⟩ := hexPrefix_ctl c hc
+  have hc' := hc
+  obtain ⟨_, _, _, _, hf, hd, hr, _⟩ := hc
+  cases l with
+  | flush => exact ⟨c.flushLine, rfl, by rw [hf]; rfl, streaming_ctl c hc' _ rest _ (by rw [hf]; rfl) pf⟩
+  | delim => exact ⟨c.delimLine, rfl, by rw [hd]; rfl, streaming_ctl c hc' _ rest _ (by rw [hd]; rfl) pd⟩
+  | responseEnd =>
+    exact ⟨c.responseEndLine, rfl, by rw [hr]; rfl, streaming_ctl c hc' _ rest _ (by rw [hr]; rfl) pr⟩
+  | data d => simp [Line.asSlice] at hl
+
+/-- `text_to_write(t)` then `as_text()` gives `t` back (whatever `t` ends in) -/
+theorem text_roundtrip (c : Consts) (hc : ConstsOk c) (t rest : Bytes) (m : Nat) (out : Bytes)
+    (h : encText c t = .ok (m, out)) :
+    ∃ l, streaming c (out ++ rest) = .ok (.complete l m) ∧ asText l = some t := by
+  obtain ⟨h1, _⟩ := encode_decode_core c hc [] t [10] rest m out h
+  refine ⟨_, h1, ?_⟩
+  simp [asText, Line.asSlice, textFrom_append_nl]
+
+/-- `error_to_write(msg)` then `check_error()` gives `msg` back -/
+theorem error_roundtrip (c : Consts) (hc : ConstsOk c) (msg rest : Bytes) (m : Nat) (out : Bytes)
+    (h : encError c msg = .ok (m, out)) :
+    ∃ l, streaming c (out ++ rest) = .ok (.complete l m) ∧ checkError c l = some msg := by
+  obtain ⟨h1, _⟩ := encode_decode_core c hc c.errPrefix msg [] rest m out h
+  refine ⟨_, h1, ?_⟩
+  rw [List.append_nil]
+  exact checkError_errPrefix c msg
+
+/-- `band_to_write(kind, d)` then `decode_band()` gives the same band and the same bytes back -/
+theorem band_roundtrip (c : Consts) (hc : ConstsOk c) (k : Nat) (hk : k = c.chData ∨ k = c.chProgress ∨ k = c.chError)
+    (d rest : Bytes) (m : Nat) (out : Bytes) (h : encBand c k d = .ok (m, out)) :
+    ∃ l, streaming c (out ++ rest) = .ok (.complete l m) ∧ decodeBand l = .band k d := by
+  obtain ⟨h1, _⟩ := encode_decode_core c hc [UInt8.ofNat k] d [] rest m out h
+  refine ⟨_, h1, ?_⟩
+  obtain ⟨_, _, _, _, _, _, _, _, h1', h2', h3'⟩ := hc
+  rw [h1', h2', h3'] at hk
+  rcases hk with hk | hk | hk <;> subst hk <;> simp [decodeBand, Line.asSlice]
+
+/-! ### no panic on any input -/
+
+/-- `decode::hex_prefix` on ANY four bytes (all 2^32) returns a line, a length or an error -/
+theorem hex_prefix_total (c : Consts) (hc : ConstsOk c) (four : Bytes) (h4 : four.length = 4) :
+    hexPrefix c four ≠ .panic :=
+  hexPrefix_total c hc four h4
+
+/-- `decode::streaming` never panics, on any input of any length -/
+theorem streaming_never_panics (c : Consts) (hc : ConstsOk c) (data : Bytes) : streaming c data ≠ .panic :=
+  streaming_total c hc data
+
+/-- `StreamingPeekableIter`: for ANY byte stream, split by the reader in ANY way, with any
+delimiters and `fail_on_err_lines` setting, NO sequence of `read_line` / `peek_line` / read-to-end
+calls panics: malformed and oversized length prefixes (`fff1..ffff` included) come back as errors. -/
+theorem reader_never_panics (c : Consts) (hc : ConstsOk c) (cs : List Bytes) (hne : NonEmptyChunks cs)
+    (delims : List Line) (failOnErr : Bool) (calls : List Call) :
+    ∀ x ∈ (runCalls c calls (Reader.new c cs delims failOnErr)).1, x.2 ≠ Res.panic :=
+  (runCalls_inv c hc calls _ (Reader.new_inv c cs hne delims failOnErr)).1
+
+-- non-vacuity / the formerly failing input: the prefix `fff1` followed by data is now an error
+example : (runCalls consts [.read] (Reader.new consts [[102, 102, 102, 49, 1, 2, 3]] [] false)).1
+    = [(false, Res.dec (.tooLong 65521))] := by decide +kernel
+
+/-- The abstraction used for the line buffers is sound: the decoder never looks at what lies
+behind a complete line (stale bytes in the reader's buffer cannot change what `decode` returns). -/
+theorem decode_ignores_trailing (c : Consts) (hc : ConstsOk c) (front rest : Bytes) (l : Line)
+    (h : allAtOnce c front = .ok l) : allAtOnce c (front ++ rest) = .ok l :=
+  allAtOnce_ignores_rest c hc front rest l h
+
+/-! ### the reader yields the same lines however the bytes are split -/
+
+/-- Two readers over the same byte stream, splitting it in different ways (down to one byte per
+`read`), give identical results for every sequence of calls. -/
+theorem reader_chunk_independent (c : Consts) (cs₁ cs₂ : List Bytes) (h₁ : NonEmptyChunks cs₁)
+    (h₂ : NonEmptyChunks cs₂) (hflat : cs₁.flatten = cs₂.flatten) (delims : List Line)
+    (failOnErr : Bool) (calls : List Call) :
+    (runCalls c calls (Reader.new c cs₁ delims failOnErr)).1 =
+      (runCalls c calls (Reader.new c cs₂ delims failOnErr)).1 :=
+  (runCalls_sim c calls (Reader.new c cs₁ delims failOnErr) (Reader.new c cs₂ delims failOnErr)
+    ⟨rfl, rfl, rfl, rfl, rfl, rfl, h₁, h₂, hflat⟩).1
+
+/-- Reading to the end of a stream made of written lines returns exactly those lines, in order,
+then EOF — for every chunking. (`Plain`: valid, not a delimiter, not an ERR line when
+`fail_on_err_lines` is on.) -/
+theorem read_lines_roundtrip (c : Consts) (hc : ConstsOk c) (ls : List Line) (delims : List Line)
+    (failOnErr : Bool) (hpl : ∀ l ∈ ls, Plain c delims failOnErr l) (cs : List Bytes)
+    (hne : NonEmptyChunks cs) (hflat : cs.flatten = wireAll c ls) :
+    (readAll c (readAllFuel (Reader.new c cs delims failOnErr)) (Reader.new c cs delims failOnErr)).1
+      = ls.map Res.line ++ [Res.io] :=
+  readAll_lines_eof c hc ls (Reader.new c cs delims failOnErr) hpl rfl rfl hne hflat
+
+-- non-vacuity: three lines (one of them a delimiter line used as plain line) in 1-byte chunks
+example : Plain consts [] false (.data [97]) ∧ Plain consts [] false .flush := by decide
+
+/-- … and it stops at the first delimiter, reporting it, WITHOUT consuming anything behind it
+(`rest` is arbitrary bytes, not necessarily packet lines). -/
+theorem read_lines_until_delimiter (c : Consts) (hc : ConstsOk c) (ls : List Line) (d : Line)
+    (rest : Bytes) (delims : List Line) (failOnErr : Bool)
+    (hpl : ∀ l ∈ ls, Plain c delims failOnErr l) (hd : delims.contains d = true) (hdv : d.Valid c)
+    (cs : List Bytes) (hne : NonEmptyChunks cs) (hflat : cs.flatten = wireAll c ls ++ (wire c d ++ rest)) :
+    let out := readAll c (readAllFuel (Reader.new c cs delims failOnErr)) (Reader.new c cs delims failOnErr)
+    out.1 = ls.map Res.line ++ [Res.none] ∧ out.2.stoppedAt = some d ∧ out.2.isDone = true ∧
+      out.2.src.flatten = rest :=
+  readAll_lines_delim c hc ls d rest (Reader.new c cs delims failOnErr) hpl hd hdv rfl rfl hne hflat
+
+/-- … and with `fail_on_err_lines` an `ERR <msg>` line ends the iteration with that message. -/
+theorem read_lines_until_err (c : Consts) (hc : ConstsOk c) (ls : List Line) (msg rest : Bytes)
+    (delims : List Line) (hpl : ∀ l ∈ ls, Plain c delims true l)
+    (hd : delims.contains (.data (c.errPrefix ++ msg)) = false)
+    (hv : (Line.data (c.errPrefix ++ msg)).Valid c)
+    (cs : List Bytes) (hne : NonEmptyChunks cs)
+    (hflat : cs.flatten = wireAll c ls ++ (wire c (.data (c.errPrefix ++ msg)) ++ rest)) :
+    let out := readAll c (readAllFuel (Reader.new c cs delims true)) (Reader.new c cs delims true)
+    out.1 = ls.map Res.line ++ [Res.errLine msg] ∧ out.2.isDone = true ∧ out.2.src.flatten = rest :=
+  readAll_lines_err c hc ls msg rest (Reader.new c cs delims true) hpl rfl hd hv rfl rfl hne hflat
+
+/-! ### side-band demultiplexing -/
+
+/-- A stream of band messages (as `band_to_write` writes them) followed by a flush, read through
+`WithSidebands` with a progress handler, for every chunking of the stream and every sequence of
+positive `read` buffer sizes: the bytes delivered are a prefix of the concatenated band-1
+payloads and the handler calls are a prefix of the progress/error texts in order; no error, no
+panic; and when a `read` returns 0 everything has been delivered exactly, the reader is stopped
+at the flush and nothing behind the flush was consumed. -/
+theorem sideband_demux (c : Consts) (hc : ConstsOk c) (ms : List Msg) (hv : ∀ m ∈ ms, m.Valid c)
+    (rest : Bytes) (cs : List Bytes) (hne : NonEmptyChunks cs)
+    (hflat : cs.flatten = wireAll c (ms.map Msg.line) ++ (wire c .flush ++ rest))
+    (ns : List Nat) (hpos : ∀ n ∈ ns, 0 < n) :
+    let s0 : SB := ⟨Reader.new c cs [.flush] false, true, 0, 0, []⟩
+    let out := drain c s0 ns []
+    (out.2.1 = .eof ∨ out.2.1 = .sizes) ∧
+    (∃ suf, dataOf ms = out.1 ++ suf) ∧ (∃ suf, progressOf ms = out.2.2.log ++ suf) ∧
+    (out.2.1 = .eof → out.1 = dataOf ms ∧ out.2.2.log = progressOf ms ∧
+      out.2.2.r.stoppedAt = some .flush ∧ out.2.2.r.src.flatten = rest) ∧
+    (out.2.1 = .sizes → ns.length ≤ out.1.length) := by
+  intro s0 out
+  have hinv : SBInv c s0 ms rest := {
+    handler := rfl
+    ready := ⟨rfl, rfl, hne⟩
+    flat := hflat
+    plain := by
+      intro m hm
+      obtain ⟨h1, h2⟩ := hv m hm
+      refine ⟨⟨by simp, by simp; omega⟩, ?_, by intro h; cases h⟩
+      rfl
+    valid := hv
+    flushDelim := by rfl
+    slice := Or.inl (Nat.le_refl _) }
+  have := drain_spec c hc ns hpos s0 ms rest [] hinv
+  obtain ⟨a, b, cc, d, e⟩ := this
+  have hp : pendingOf s0 = [] := rfl
+  simp only [hp, List.nil_append, List.append_nil] at b cc d
+  refine ⟨a, b, cc, ?_, ?_⟩
+  · intro h
+    obtain ⟨d1, d2, d3, _, d5⟩ := d h
+    exact ⟨d1, d2, d3, d5⟩
+  · intro h
+    simpa using e h
+
+/-- With more `read` calls than there are data bytes, the end is reached: everything is
+delivered. -/
+theorem sideband_delivers_all (c : Consts) (hc : ConstsOk c) (ms : List Msg) (hv : ∀ m ∈ ms, m.Valid c)
+    (rest : Bytes) (cs : List Bytes) (hne : NonEmptyChunks cs)
+    (hflat : cs.flatten = wireAll c (ms.map Msg.line) ++ (wire c .flush ++ rest))
+    (ns : List Nat) (hpos : ∀ n ∈ ns, 0 < n) (hmany : (dataOf ms).length < ns.length) :
+    let s0 : SB := ⟨Reader.new c cs [.flush] false, true, 0, 0, []⟩
+    let out := drain c s0 ns []
+    out.2.1 = .eof ∧ out.1 = dataOf ms ∧ out.2.2.log = progressOf ms := by
+  intro s0 out
+  obtain ⟨a, ⟨suf, b⟩, _, d, e⟩ := sideband_demux c hc ms hv rest cs hne hflat ns hpos
+  have heof : out.2.1 = .eof := by
+    rcases a with a | a
+    · exact a
+    · have := e a
+      have hl := congrArg List.length b
+      simp only [List.length_append] at hl
+      omega
+  obtain ⟨d1, d2, _⟩ := d heof
+  exact ⟨heof, d1, d2⟩
+
+-- non-vacuity: data, progress (newline stripped), error, data — one byte per `read`, 3-byte chunks
+example :
+    let ms := [Msg.data [1, 2], .progress [104, 105, 10], .error [33], .data [3]]
+    (∀ m ∈ ms, m.Valid consts) ∧ dataOf ms = [1, 2, 3] ∧
+      progressOf ms = [(false, [104, 105]), (true, [33])] := by decide
 
 end GixModel.Props.C29
